@@ -3,6 +3,7 @@
 Histories are recorded by the harness at the call boundary and inside the limited function (one lock-protected
 log, monotonic clock); schedules are perturbed with sys.setswitchinterval and with sys.monitoring LINE
 callbacks that sleep inside run_timeout's race windows (source-free yield/delay injection)."""
+import os
 import sys
 import time
 import inspect
@@ -34,7 +35,7 @@ class Inject:
             import adsg_core.optimization.assign_enc.time_limiter as tl
             codes = [c for c in tl.run_timeout.__code__.co_consts if hasattr(c, 'co_name') and
                      c.co_name == '_inner_run']
-            if not codes or not hasattr(sys, 'monitoring'):
+            if not codes or not hasattr(sys, 'monitoring') or os.environ.get('VERIF_C19_NO_MONITORING'):
                 return
             self.code = codes[0]
             src = inspect.getsource(tl).splitlines()
@@ -137,6 +138,9 @@ def make_func(kind, call_id, dur, rnd):
 def one_call(kind, call_id, limit, dur, col, rnd, baseline_threads, cfg):
     from adsg_core.optimization.assign_enc.time_limiter import run_timeout
     f, expect = make_func(kind, call_id, dur, rnd)
+    if os.environ.get('VERIF_CRASH_DIR'):
+        sys.stderr.write('CALL %s %s limit=%s dur=%s cfg=%s\n' % (call_id, kind, limit, dur, cfg))
+        sys.stderr.flush()
     col.count('monitor_calls')
     col.count('calls_' + kind)
     t0 = time.monotonic()
@@ -245,9 +249,13 @@ def worker(task, col):
     baseline = set(threading.enumerate())
     interleavings = set()
     kinds = ['fast_return', 'fast_raise', 'raise_timeout_itself', 'work', 'near_limit', 'near_limit', 'near_limit',
-             'blocked', 'swallow_once', 'native_sleep', 'nested']
+             'blocked', 'swallow_once', 'native_sleep']
+    if task.get('only') == 'nested':
+        # nested calls run in their own processes: the leaked inner worker (KF-TL-NESTED) has been seen to crash the
+        # interpreter in run_timeout's gc.collect(); isolating them keeps that from taking other observations down
+        kinds = ['nested', 'nested', 'fast_return', 'nested', 'work']
     n = task['hi'] - task['lo']
-    if task['shard'] == 0:
+    if task.get('only') == 'nested' and task.get('witness'):
         # fixed witness of known finding KF-TL-NESTED: the outer limit expires while the outer worker is inside a
         # nested run_timeout whose own limit has not expired yet
         for rep in range(3):
@@ -314,7 +322,27 @@ def main(run):
                     tasks.append({'shard': sid, 'lo': 0, 'hi': per, 'switch': sw, 'inject': injm})
                     sid += 1
         tasks.append({'shard': sid, 'lo': 0, 'hi': per * 2, 'switch': 5e-6, 'inject': False, 'mode': 'back_to_back'})
-        run.map(tasks, timeout=1700, extra_env={'PYTHONDEVMODE': '1'})
+        sid += 1
+        n_nested = 4 if run.tier == 'quick' else 12
+        for j in range(n_nested):
+            tasks.append({'shard': sid, 'lo': 0, 'hi': 12 if run.tier == 'quick' else 40, 'switch': [None, 5e-6, 5e-3][j % 3],
+                          'inject': j % 2 == 1, 'only': 'nested', 'witness': j == 0})
+            sid += 1
+        res = run.map(tasks, timeout=1700, extra_env={} if os.environ.get('VERIF_C19_NO_DEV') else {'PYTHONDEVMODE': '1'})
+        # a crashed worker process is an observation, not a harness failure
+        crashed = [(t, d) for t, r, d in zip(tasks, res, run.diag + [''] * len(tasks)) if r is None]
+        viols = []
+        for t, r in zip(tasks, res):
+            if r is None:
+                kind = 'nested' if t.get('only') == 'nested' else 'other'
+                viols.append({'symptom': 'interpreter_crash_in_worker_process', 'spec': {'task': {k: v for k, v in t.items()
+                                                                                                  if not k.startswith('_')}},
+                              'flags': [], 'where': {'kind': kind},
+                              'detail': {'diagnostic': '; '.join(run.diag)[-800:]}})
+        if viols:
+            n_nested_crash = sum(1 for v in viols if v['where']['kind'] == 'nested')
+            run.n_failed_tasks -= n_nested_crash     # judged as violations (known finding), not as lost tasks
+            run.results.append({'evaluations': 0, 'violations': viols, 'counters': {}, 'nontrivial': []})
     run.finish('calls of run_timeout over classes fast_return/fast_raise/raise_timeout_itself/work/near_limit '
                '(duration 0.5..1.5 x limit)/blocked/swallow_once/native_sleep/nested and back-to-back runs, under '
                'switch intervals {default, 5e-6, 5e-3} with and without sys.monitoring sleeps injected between the '
